@@ -82,6 +82,18 @@ const HAND: &[&str] = &[
     "def main(): i64 { if -1 == 0 { -2 } else { - 3 } }",
     "codata S { hd: i64, tl: S }\ndef ones(): S { new { hd => 1, tl => ones() } }\ndef main(): i64 { ones().tl.tl.hd }",
     "data E { }\ndef f(e: E): i64 { e.case { } }\ndef main(): i64 { 0 }",
+    // literal zeros next to comparison operators (lexed together with the operator)
+    "def main(x: i64): i64 { if x == -0 { 1 } else { 2 } }",
+    "def main(x: i64): i64 { if 0 > 0 { 1 } else { 2 } }",
+    "def main(x: i64): i64 { if x == -0 + x { 1 } else { 2 } }",
+    "def main(x: i64): i64 { if x <= -0 * x - 0 { 1 } else { 2 } }",
+    "def main(x: i64): i64 { if 0 > x - 0 { 1 } else { 2 } }",
+    "def main(x: i64): i64 { if 0 <= x * 0 { 1 } else { 2 } }",
+    "def main(x: i64): i64 { if 0 == 0 - 0 { 1 } else { 2 } }",
+    "def main(x: i64): i64 { if 0 != exit 0 { 1 } else { 2 } }",
+    "def main(x: i64): i64 { if 0 < let y: i64 = 1; 0 { 1 } else { 2 } }",
+    "def main(x: i64): i64 { if x > -0 - -0 { 1 } else { 2 } }",
+    "def main(x: i64): i64 { if 10 == x { if x == 10 { 1 } else { 0 } } else { if 100 < x { 2 } else { 3 } } }",
 ];
 
 pub fn run(ctx: &Ctx, acc: &mut Acc) {
